@@ -7,7 +7,7 @@ from harness import table_scorers as ts
 from harness.engine import coq_bad_cases, coq_eval, coq_list, nlist, zlist, zlit
 
 INFO = {
-    "extra_targets": ["Check/MwCheck.vo"],
+    "extra_targets": ["Check/MwCheck.vo", "Check/GenericCheck.vo"],
     "level": "proof",
     "rule": "integer change scores (formula columns / integer CUSUM numerators with level shifts, p = 1..3) through the real "
             "MovingWindow with integer threshold_: bandwidth 1..6, n in [2b, 36], every admissible min_detection_interval, "
@@ -135,3 +135,6 @@ def run(ctx):
                           {"what": "scores-vs-definition", "multi_column": p > 1})
     from harness import helpers as _helpers
     _helpers.mw_helpers(ctx)
+    # ---- the same search loop on BINARY64 score tables of the real built-in scorers (Model/Generic.v at Model/GenericF.v), bit for bit ----
+    from harness import floatstreams
+    floatstreams.mw_float_stream(ctx, ctx.n(45, 300))
